@@ -36,6 +36,7 @@ def run(chk):
     chk.rule("R01.2", "defaults agree and parameters are forwarded unchanged along the signing and verifying chains")
     chk.rule("R01.3", "default encoder/decoder of one format; encoder and decoder orders both come from curve.order")
     chk.rule("R01.4", "all key loaders end in the two constructors that establish the pairing")
+    chk.rule("R01.5", "every loader / constructor forwards the caller's hashfunc to the loader or constructor it delegates to, and the constructors store it as the key's default")
     chk.configs = ["py3"]
     W = world()
     p = W.p
@@ -205,6 +206,36 @@ def run(chk):
         rets = [n for n in ast.walk(f.node) if isinstance(n, ast.Return) and n.value is not None]
         allcalls = all(isinstance(r.value, ast.Call) for r in rets)
         chk.ob("R01.4", "%s returns only through calls ending in %s" % (q.split(":")[1], ctor.split(".")[-1]), ctor in reach and allcalls, loc=q, key="C01|R01.4|%s" % q, detail="%s can produce a key without %s" % (q, ctor))
+    # ---------------- R01.5 hashfunc forwarding (call-graph rule over keys.py)
+    nsites = 0
+    for f in p.all_funcs():
+        if f.module != "keys" or "hashfunc" not in f.params or f.cls not in ("SigningKey", "VerifyingKey"):
+            continue
+        for cs in W.lite.calls.get(f.qname, ()):
+            if not isinstance(cs.node, ast.Call):
+                continue
+            tg = [g for g in cs.callees if "hashfunc" in g.params and g.module == "keys" and g.cls in ("SigningKey", "VerifyingKey")]
+            if not tg:
+                continue
+            for g in tg:
+                nsites += 1
+                formal = [x for x in g.params if x not in ("self", "cls")] if g.kind in ("class", "method") or g.params[:1] in (["self"], ["cls"]) else list(g.params)
+                passed = None
+                for kw in cs.node.keywords:
+                    if kw.arg == "hashfunc":
+                        passed = kw.value
+                i = formal.index("hashfunc")
+                if passed is None and len(cs.node.args) > i and not any(isinstance(a_, ast.Starred) for a_ in cs.node.args):
+                    passed = cs.node.args[i]
+                okf = isinstance(passed, ast.Name) and passed.id == "hashfunc"
+                chk.ob("R01.5", "%s -> %s: hashfunc forwarded" % (f.qual, g.qual), okf, loc="src/ecdsa/keys.py:%d" % cs.node.lineno, key="C01|R01.5|%s|%s" % (f.qual, g.qual),
+                       detail="%s calls %s %s: a key loaded with a non-default hash would sign / verify with another hash than its peer" % (f.qual, g.qual, "without passing hashfunc (the callee's default is used)" if passed is None else "with hashfunc=%s instead of the caller's hashfunc" % norm_text(passed)))
+    chk.floor("R01.5", "delegations between functions that take hashfunc", nsites, 5)
+    for q in ("keys:VerifyingKey.from_public_point", "keys:SigningKey.from_secret_exponent"):
+        f = p.func(q)
+        st_ = [n for n in ast.walk(f.node) if isinstance(n, ast.Assign) and isinstance(n.targets[0], ast.Attribute) and n.targets[0].attr == "default_hashfunc"]
+        chk.ob("R01.5", "%s stores hashfunc as default_hashfunc" % f.qual, len(st_) == 1 and isinstance(st_[0].value, ast.Name) and st_[0].value.id == "hashfunc", loc=q, key="C01|R01.5|store|%s" % f.qual,
+               detail="%s does not record the caller's hashfunc as the key's default" % f.qual)
 
 
 def _sub(t):
